@@ -106,7 +106,7 @@ def finish (out : LoopOut ℚ) : LoopOut ℚ :=
 theorem integrate_eq (cfg : Cfg ℚ) (s : Sys ℚ) (target : ℚ) (orc : Oracle ℚ) (fuel : Nat) :
     integrate cfg s target orc fuel =
       if s.crashed then { sys := s, reqs := [], guardExit := false, iters := 0 } else
-      if absC (target - s.tcur) < cfg.eps then { sys := s, reqs := [], guardExit := true, iters := 0 } else
+      if absC (target - s.tcur) < cfg.tolEps then { sys := s, reqs := [], guardExit := true, iters := 0 } else
       match allocSteps (target - s.tcur) (initialDt cfg s target) with
       | none => { sys := { startSys cfg s target 0 with cap := s.cap, crashed := true }, reqs := [], guardExit := false, iters := 0 }
       | some n => finish (loop cfg target orc fuel 0 (startSys cfg s target n) []) := by
@@ -132,7 +132,7 @@ theorem integrate_shift (cfg : Cfg ℚ) (c target : ℚ) (s : Sys ℚ) (orc : Or
   by_cases hc : s.crashed = true
   · simp [hc, shiftOut]
   · simp only [hc, Bool.false_eq_true, if_false]
-    by_cases he : absC (target - s.tcur) < cfg.eps
+    by_cases he : absC (target - s.tcur) < cfg.tolEps
     · simp [he, shiftOut]
     · simp only [he, if_false]
       rcases halloc : allocSteps (target - s.tcur) (initialDt cfg s target) with _ | n
@@ -318,7 +318,7 @@ theorem integrate_refl (cfg : Cfg ℚ) (target : ℚ) (s : Sys ℚ) (orc : Oracl
   by_cases hc : s.crashed = true
   · simp [hc, reflOut]
   · simp only [hc, Bool.false_eq_true, if_false]
-    by_cases he : absC (target - s.tcur) < cfg.eps
+    by_cases he : absC (target - s.tcur) < cfg.tolEps
     · simp [he, reflOut]
     · simp only [he, if_false]
       rcases halloc : allocSteps (target - s.tcur) (initialDt cfg s target) with _ | n
